@@ -230,13 +230,22 @@ func lastReturn(n ast.Node, where string) ast.Expr {
 // skeleton lists, in source order, the shared-memory / effect operations of a function.
 var skelRe = regexp.MustCompile(`^(atomic\.\w+|.*\.dcasNext|.*\.getNext|.*\.Insert2|.*\.freeItem|.*[fF]reeNode|close|.*\.Lock|.*\.Unlock|.*\.callb|.*\.FlushSession|.*freeq\.Insert|.*freeq\.DeleteNode|.*\.doCleanup|.*\.hasReadySession|.*\.hasCollectableSnapshot|.*\.Release|.*\.Acquire|os\.MkdirAll|ioutil\.WriteFile|.*\.Open|.*\.Close|m\.Visitor|m\.changeDeltaWrState|.*snapshots\.Delete|.*gcsnapshots\.Insert|.*gcsnapshots\.DeleteNode|.*\.GC|m\.collectDead|.*store\.DeleteNode|.*\.SetLink|s\.findPath|s\.softDelete|s\.helpDelete|.*\.WriteItem|.*\.Flush|.*\.skipUnwanted|.*iter\.Seek|.*iter\.Next|.*iter\.SeekFirst|it\.Refresh|json\.Unmarshal|b\.Assemble|m\.NewSnapshot)$`)
 
+var skelExtra *regexp.Regexp
+
+// skeletonWith lists additionally the calls matching extra (used for functions whose order of set-up calls matters)
+func skeletonWith(fd *ast.FuncDecl, extra string) string {
+	skelExtra = regexp.MustCompile(extra)
+	defer func() { skelExtra = nil }()
+	return skeleton(fd)
+}
+
 func skeleton(fd *ast.FuncDecl) string {
 	var ops []string
 	ast.Inspect(fd.Body, func(x ast.Node) bool {
 		switch t := x.(type) {
 		case *ast.CallExpr:
 			f := str(t.Fun)
-			if skelRe.MatchString(f) {
+			if skelRe.MatchString(f) || (skelExtra != nil && skelExtra.MatchString(f)) {
 				op := f
 				if strings.HasPrefix(f, "atomic.") && len(t.Args) > 0 {
 					op = f + "(" + strings.TrimPrefix(str(t.Args[0]), "&") + ")"
@@ -338,6 +347,8 @@ func main() {
 		if k2 := cmpKindOf(c2.Args[0], "Iterator.Refresh"); k1 != k2 {
 			die("NewIterator and Refresh walk the store with different comparators (%s, %s)", k1, k2)
 		}
+		emit("def skeleton_NitroNewIterator : List String := %s\n", skeletonWith(fn("iterator.go", "*Nitro", "NewIterator"), `.*\.NewIterator$|.*\.MakeBuf$`))
+		emit("def skeleton_NitroIteratorClose : List String := %s\n", skeletonWith(fn("iterator.go", "*Iterator", "Close"), `.*\.FreeBuf$`))
 		emit("-- iterator.go NewIterator / Refresh : comparator of the underlying skiplist iterator")
 		emit("def iteratorStoreCmp : CmpKind := %s\n", k1)
 	}
@@ -468,6 +479,26 @@ func main() {
 		emit("def visitorEndCmp : CmpKind := %s", cmpKind(cc, "Visitor"))
 		emit("def visitorEndStop (c : Int) : Bool :=\n  %s\n", tr(cb, env{str(cc): "c"}, "Visitor"))
 		emit("def skeleton_Visitor : List String := %s\n", skeleton(f))
+		// termination of the dispatcher: the work channel must hold every shard index without a receiver
+		// (a worker that hits a callback error stops receiving)
+		var chanCap, loopBound string
+		ast.Inspect(f, func(x ast.Node) bool {
+			if a, ok := x.(*ast.AssignStmt); ok && len(a.Lhs) == 1 && str(a.Lhs[0]) == "wch" {
+				if c, ok := a.Rhs[0].(*ast.CallExpr); ok && str(c.Fun) == "make" && len(c.Args) == 2 {
+					chanCap = str(c.Args[1])
+				}
+			}
+			if fs, ok := x.(*ast.ForStmt); ok && fs.Cond != nil && strings.HasPrefix(str(fs.Cond), "shard < ") {
+				loopBound = strings.TrimPrefix(str(fs.Cond), "shard < ")
+			}
+			return true
+		})
+		if chanCap == "" || loopBound == "" {
+			die("Visitor: work channel or dispatch loop not found")
+		}
+		emit("-- nitro.go (*Nitro).Visitor : capacity of the work channel and number of shard indexes sent into it")
+		emit("def visitorChanCap : String := %q", chanCap)
+		emit("def visitorDispatchBound : String := %q\n", loopBound)
 	}
 	// ---- nitro.go backup
 	{
